@@ -11,7 +11,6 @@ package main
 
 import (
 	"bytes"
-	"context"
 	"encoding/csv"
 	"encoding/json"
 	"errors"
@@ -47,18 +46,22 @@ func init() {
 			"(E) default-setting: one object schema with property a ∈ {plain, readOnly, writeOnly} × type × default (none / integer / string) × nullable, b with/without default, every required subset, additionalProperties × 8 values × ExcludeReadOnlyValidations × SkipSettingDefaults; (E1b) minProperties × maxProperties × defaults; " +
 			"(E2) defaults inside allOf/anyOf/oneOf members × 7 sibling members (require / forbid / re-declare read-only / additionalProperties false …) × 3 top levels × 5 values × both options; (E3) nested defaults (object defaults completed by their own defaults, items, defaults carrying read-only members, defaults on composition-valued properties) × 17 values; " +
 			"(E4) defaults under media types without body encoder (urlencoded, multipart, text/plain, octet-stream) and under the six JSON media types; " +
-			"then a seeded random stream of nested schemas with compositions, defaults (conforming and not) and property counts × schema-directed values (valid and mutated) × JSON renderings (whitespace, duplicate keys, trailing data, blank) × raw/malformed bodies × media-type sets × headers (also a second header value, several parameters) × MultiError × SkipSettingDefaults. " +
+			"(G) request construction: 15 ways to build the *http.Request (in-memory readers, io.NopCloser, MultiReader, one-byte reader, Body assigned later, chunked, httptest, ContentLength larger/1/zeroed/negative, http.NoBody and nil Body announcing bytes) × 14 body situations × required × ExcludeReadOnlyValidations × SkipSettingDefaults, each also through ValidateRequest and validated 3 times on one object; " +
+			"(H) histories of 1 and 2 RegisterBodyDecoder/UnregisterBodyDecoder operations (3 keys × 3 decoders) × 6 bodies, in a child process; " +
+			"then a seeded random stream of nested schemas with compositions, defaults (conforming and not) and property counts × schema-directed values (valid and mutated) × JSON renderings (whitespace, duplicate keys, trailing data, blank) × raw/malformed bodies × media-type sets × headers (also a second header value, several parameters) × MultiError × SkipSettingDefaults × request construction kind × entry point (ValidateRequestBody / ValidateRequest) × repeated validation. " +
 			"A case is non-trivial when the model reports at least one non-default branch (selection level, decoder, outcome class, read-only handling, composition keywords, default handling, value shape).",
 		Exhaustive: true,
 		Gen:        genC06,
 		Run:        runC06,
+		RunChild:   runC06Direct,
 		Compare:    cmpC06,
-		Shrink:     shrinkC06,
+		Shrink:     c06ShrinkR,
 		Assumptions: []string{
 			"schemas range over the fragment type/nullable/readOnly/writeOnly/minLength/maximum/properties/required/additionalProperties(bool)/items/not/oneOf/anyOf/allOf/minProperties/maxProperties/default (no discriminator); the full validator is property C01",
 			"numbers in bodies are integers |n| ≤ 10^6 and n+0.5 (exact in float64); number texts in forms are decimal [+-]digits or [+-]digits.5 without leading zeros, or non-numeric",
 			"encoding/json, net/url.ParseQuery, mime, mime/multipart, yaml3 and encoding/csv are trusted: what they make of the body text is an input of the model; YAML texts stay inside the JSON data model (no timestamps, no non-string keys)",
 			"array properties of form bodies carry items; per-property styles only form/spaceDelimited/pipeDelimited on arrays; object-typed properties inside composition members of a form schema, one name declared as integer and as number, the zip decoder and form decoders nested inside multipart parts are outside the model and not generated",
+			"the shape of a request (kind of Body, ContentLength, GetBody) is what net/http's constructors make of it, computed by the same calls; registry-changing cases run one at a time in a child process; empty registry keys / nil decoders are not generated",
 			"where a default decides the verdict (caseNeutral false) the oracle is the two-phase reading (completed value) for composition-free schemas; for schemas with compositions only implementation vs model is compared",
 		},
 	})
@@ -66,10 +69,10 @@ func init() {
 
 // ---------------------------------------------------------------- values and schemas of the fragment
 
-func jI(n int) any         { return map[string]any{"i": n} }
-func jH(n int) any         { return map[string]any{"h": n} }
-func jS(s string) any      { return map[string]any{"s": s} }
-func jA(xs ...any) any     { return map[string]any{"a": append([]any{}, xs...)} }
+func jI(n int) any     { return map[string]any{"i": n} }
+func jH(n int) any     { return map[string]any{"h": n} }
+func jS(s string) any  { return map[string]any{"s": s} }
+func jA(xs ...any) any { return map[string]any{"a": append([]any{}, xs...)} }
 func jO(kvs ...any) any { // k1, v1, k2, v2 …
 	l := []any{}
 	for i := 0; i+1 < len(kvs); i += 2 {
@@ -567,6 +570,16 @@ func c06Encodings(v any) map[string]*openapi3.Encoding {
 // ---------------------------------------------------------------- the real code
 
 func runC06(c hx.Case) any {
+	// the decoder registry is process-wide and not goroutine-safe: cases that change it run in a child process
+	// (one case at a time there), which restores the registry afterwards
+	if len(jlist(c["regOps"])) > 0 {
+		return hx.RunIsolated("C06", c, 30000)
+	}
+	return runC06Direct(c)
+}
+
+func runC06Direct(c hx.Case) any {
+	defer c06ApplyRegOps(jlist(c["regOps"]))()
 	rb := openapi3.NewRequestBody()
 	rb.Required = jbool(c, "required")
 	rb.Content = openapi3.Content{}
@@ -580,14 +593,8 @@ func runC06(c hx.Case) any {
 	body, _ := c["body"].(map[string]any)
 	text := jstr(body, "text")
 	ct := jstr(c, "ct")
-	var rd io.Reader
-	switch {
-	case text != "":
-		rd = strings.NewReader(text)
-	case jbool(c, "emptyReader"):
-		rd = strings.NewReader("")
-	}
-	req, err := http.NewRequest("POST", "http://example.com/x", rd)
+	kind := jstr(c, "reqKind")
+	req, err := c06BuildRequest(kind, text, jbool(c, "emptyReader"))
 	if err != nil {
 		return map[string]any{"kind": "harness-error", "err": err.Error()}
 	}
@@ -600,10 +607,23 @@ func runC06(c hx.Case) any {
 	in := &openapi3filter.RequestValidationInput{Request: req,
 		Options: &openapi3filter.Options{ExcludeReadOnlyValidations: jbool(c, "exro"), MultiError: jbool(c, "multi"),
 			SkipSettingDefaults: jbool(c, "skipDefaults")}}
-	verr := openapi3filter.ValidateRequestBody(context.Background(), in, rb)
+	validate := c06Entry(jstr(c, "entry"), in, rb)
+	verr := validate()
 	out := map[string]any{"ok": verr == nil, "outcome": c06Classify(verr)}
 	if verr != nil {
 		out["msg"] = strings.SplitN(verr.Error(), "\n", 2)[0]
+	}
+	// the same request object validated again (the body was put back): outcomes of all calls
+	if n, _ := jnum(c["repeat"]); n > 0 {
+		rep := []any{c06Classify(verr)}
+		for i := 1; i < n; i++ {
+			rep = append(rep, c06Classify(validate()))
+		}
+		out["repeated"] = rep
+	}
+	// a request without a body stream carries no bytes: nothing to decode
+	if sh, _ := c["shape"].(map[string]any); sh != nil && jstr(sh, "body") != "stream" {
+		return out
 	}
 	// the body must still be readable afterwards (same bytes) — cheap sanity on the way
 	// public decoder, called directly when the validation reaches decoding
@@ -669,6 +689,20 @@ func cmpC06(c hx.Case, impl any, reply map[string]any) hx.Verdict {
 	if jstr(im, "outcome") != jstr(model, "outcome") {
 		v.IM = false
 		v.Detail = fmt.Sprintf("outcome: impl %s (%s) vs model %s", jstr(im, "outcome"), jstr(im, "msg"), jstr(model, "outcome"))
+	}
+	if mrep := jlist(model["repeated"]); len(mrep) > 0 {
+		irep := jlist(im["repeated"])
+		if fmt.Sprint(irep) != fmt.Sprint(mrep) {
+			v.IM = false
+			v.Detail += fmt.Sprintf(" repeated validation of one request: impl %v vs model %v", irep, mrep)
+		}
+		for _, o := range irep {
+			if applies, ok := spec["applies"].(bool); (!ok || applies) && (fmt.Sprint(o) == "ok") != jbool(spec, "accept") {
+				v.IS = false
+				v.Detail += fmt.Sprintf(" repeated validation: %v, spec accept=%v", irep, jbool(spec, "accept"))
+				break
+			}
+		}
 	}
 	// decoded values (public decoders): implementation vs model
 	if jbool(model, "decoding") {
@@ -1151,6 +1185,10 @@ func genC06(ctx *hx.Ctx, emit func(hx.Case)) {
 	genYamlCsv(ctx, emit)
 	// (E) default injection (DefaultsSet is installed unless Options.SkipSettingDefaults)
 	genDefaults(ctx, emit)
+	// (G) request construction variants (kind of Body, ContentLength, GetBody) and repeated validation
+	genReqShapes(ctx, emit)
+	// (H) the decoder registry as state: histories of Register/Unregister (child process)
+	genRegistry(ctx, emit)
 	// random stream
 	nr := 10000
 	if ctx.Thorough() {
@@ -1917,6 +1955,15 @@ func randCase(r *hx.Rng) hx.Case {
 	}
 	if r.Chance(5) && jstr(c["body"].(map[string]any), "text") == "" {
 		c["emptyReader"] = true
+	}
+	if r.Chance(12) {
+		c["entry"] = "request"
+	}
+	if r.Chance(25) {
+		if r.Chance(15) && jbool(c, "skipDefaults") {
+			c["repeat"] = 2 + r.Intn(2)
+		}
+		c = c06WithShape(c, hx.Pick(r, c06ReqKinds))
 	}
 	if r.Chance(4) && jstr(c, "ct") != "" {
 		c["ct2"] = hx.Pick(r, []string{"text/plain", "application/json", "application/x-www-form-urlencoded", "*/*"})
